@@ -264,7 +264,7 @@ PROPS["C01"] = {
     "bounded": lambda tier: [("dna_string::verif::d_packed_add_b", "PackedDnaStringSet::add x2 (5 and 3 bases) then get")],
     "design_ref": "DESIGN.md §6 C01 (as-built note in the section-6 preamble)",
     "undecided": [
-        "entry points other than CompressFromHash::compress_kmers / compress_kmers_with_hash: the public compress_kmers (from a sorted slice: builds the BoomHashMap2 with destructuring reference patterns, then calls the proved function) and compress_kmers_no_exts (HashSet built with iterator adapters) are not under contract as wholes; of compress_kmers_no_exts the derivation of each k-mer's extension byte IS (unit noexts, rule R15: base b is recorded on a side exactly when the canonical form of the neighbour through b is in the given set; observed while reading: it canonicalises with min_rc even when stranded)",
+        "entry point compress_kmers_no_exts (its HashSet is built with iterator adapters) is not under contract as a whole: the derivation of each k-mer's extension byte IS (unit noexts, rule R15: base b is recorded on a side exactly when the canonical form of the neighbour through b is in the given set; observed while reading: it canonicalises with min_rc even when stranded), the call it ends in is the proved from-hash function",
         "'an extension recorded for BOTH of them': proved for the k-mer the walk steps FROM (the base is in its extension set, and is its sole extension on that side) and as 'exactly one extension on the facing side' for the k-mer stepped TO; that this one facing extension names the first k-mer is a property of the input table (extension symmetry), which the code does not check",
         "BaseGraph::finish (boomphf index construction over the node ends) and PackedDnaStringSet::add (generic IntoIterator + Borrow; bounded stand-in only) are outside the Verus subset: the statement is about the node sequences handed to BaseGraph::add, the accessors that read them back are proved in unit packedset",
         "bounded cross-check of the whole pipeline is intractable: boomphf's MPHF construction keeps CBMC busy > 50 min even for 3 concrete keys"],
@@ -273,8 +273,8 @@ PROPS["C01"] = {
         "precondition backlinks_ok (extensions reference only present k-mers, symmetrically); precondition canon_keys (an unstranded table stores canonical k-mers)",
         "std: iterating &VecDeque<u8> yields its elements front to back (axiom_iter_seq_deque); D::clone is only known through vstd's `cloned` relation",
         "PackedDnaStringSet is abstract in unit buildnode (list of stored sequences; `add` appends the iterated bases): its accessors are proved on the real struct in unit packedset, `add` by the bounded Kani harness d_packed_add_b only"],
-    "level_text": "The statement is a machine-checked POSTCONDITION of the real CompressFromHash::compress_kmers (Verus, unbounded, bodies extracted from /repo on every run; graph_post in verus/units/buildnode.rs.tmpl): there is an assignment owner[j][o] of table slots to (node j, offset o) such that (a) window o of node j, canonicalised when unstranded, IS the table key of slot owner[j][o] - no foreign k-mer; (b) different positions hold different slots and every slot occurs - each input k-mer in exactly one node at exactly one offset; (c) a node of m k-mers has m+K-1 bases and consecutive windows are linked by an extension recorded for the k-mer nearer the seed, the sole extension on both facing sides; (d) each node's payload is the caller's reduction folded over exactly the payloads of the slots the node spells (seed first, then leftwards, then rightwards). It rests on contracts of every function in between, all on real bodies: try_extend_kmer (link predicate, iff), extend_kmer (every step a link; exactly the seed and the walked k-mers leave the available set), the WHOLE of build_node (both walks, both assembly loops over the walked path, terminal extensions; rules R16/R17), BaseGraph::new/add; and on a ghost theory (orientation chain on the seed's strand, windows of the spelled sequence, slot bookkeeping) proved as lemmas in the same run.",
-    "level_note": "Preconditions: the table is well formed (distinct keys of K bases), its keys are canonical when unstranded, and extensions reference only present k-mers symmetrically (backlinks_ok; makes the unreachable!() branch unreachable). Assumed, not proved: boomphf BoomHashMap2 lookup/get_key, bit_set::BitSet, PackedDnaStringSet::add with iteration over &VecDeque (bounded Kani stand-in), D::clone (vstd `cloned` relation), the trait-level Kmer seam (discharged per shipped type by Kani). Entry points other than the from-hash one are listed under undecided_clauses.",
+    "level_text": "The statement is a machine-checked POSTCONDITION of the real CompressFromHash::compress_kmers and of the public entry points compress_kmers_with_hash and compress_kmers (from a slice; for the table BoomHashMap2::new builds from it, in whatever slot order) (Verus, unbounded, bodies extracted from /repo on every run; graph_post in verus/units/buildnode.rs.tmpl): there is an assignment owner[j][o] of table slots to (node j, offset o) such that (a) window o of node j, canonicalised when unstranded, IS the table key of slot owner[j][o] - no foreign k-mer; (b) different positions hold different slots and every slot occurs - each input k-mer in exactly one node at exactly one offset; (c) a node of m k-mers has m+K-1 bases and consecutive windows are linked by an extension recorded for the k-mer nearer the seed, the sole extension on both facing sides; (d) each node's payload is the caller's reduction folded over exactly the payloads of the slots the node spells (seed first, then leftwards, then rightwards). It rests on contracts of every function in between, all on real bodies: try_extend_kmer (link predicate, iff), extend_kmer (every step a link; exactly the seed and the walked k-mers leave the available set), the WHOLE of build_node (both walks, both assembly loops over the walked path, terminal extensions; rules R16/R17), BaseGraph::new/add; and on a ghost theory (orientation chain on the seed's strand, windows of the spelled sequence, slot bookkeeping) proved as lemmas in the same run.",
+    "level_note": "Preconditions: the table is well formed (distinct keys of K bases), its keys are canonical when unstranded, and extensions reference only present k-mers symmetrically (backlinks_ok; makes the unreachable!() branch unreachable). Assumed, not proved: boomphf BoomHashMap2 lookup/get_key, bit_set::BitSet, PackedDnaStringSet::add with iteration over &VecDeque (bounded Kani stand-in), D::clone (vstd `cloned` relation), the trait-level Kmer seam (discharged per shipped type by Kani). BoomHashMap2::new is assumed to return exactly the given triples in some slot order. compress_kmers_no_exts is listed under undecided_clauses.",
 }
 
 PROPS["C02"] = {
